@@ -556,3 +556,16 @@ Fixpoint run_obs (c : config) (s : state) (sched : list (tid * alt * Z)) (left :
   | [] => (s, [], left')
   | (t, a, inc) :: r => if enabled c s t a then run_obs c (step c s t a inc) r left' else (s, sched, left')
   end.
+
+(* a deterministic round-robin scheduler for examples: the first enabled choice of a thread after the one
+   that moved last; every clock reading advances 7 ms *)
+Fixpoint auto_go (fuel : nat) (c : config) (s : state) (last : tid) : state :=
+  match fuel with
+  | O => s
+  | S f => let opts := options c s in
+           match filter (fun o : tid * alt => last <? fst o) opts ++ opts with
+           | [] => s
+           | (t, a) :: _ => auto_go f c (step c s t a 7) t
+           end
+  end.
+Definition auto_run (fuel : nat) (c : config) (s : state) : state := auto_go fuel c s (-1).
